@@ -22,7 +22,7 @@ def replay(prop, path):
 
 
 def save_case(prop, seed, shard, idx, case):
-    d = os.path.join(VERIF, "replays")
+    d = os.environ.get("VERIF_REPLAY_DIR") or os.path.join(VERIF, "replays")
     os.makedirs(d, exist_ok=True)
     p = os.path.join(d, "%s-seed%s-shard%s-case%s.json" % (prop, seed, shard, idx))
     jdump_file(case, p)
